@@ -364,6 +364,33 @@ Definition df_product_expected : list string :=
   ["src_ids"; "range(max_path_len)"; "sens_ids"; "range(num_of_pixels)"]%string.
 Definition df_columns_expected : list string := ["source"; "path"; "sensor"; "pixel"]%string.
 
+(* ---- check_format_input_observers on a mixed list [position array | Sensor | Collection, ...]: the sensors in LIST
+        order, a collection replaced on the spot by its sensors (depth first), a position array by a pixel sensor ---- *)
+Inductive obs_item := OISensor (id : Z) | OIColl (c : mobj) | OIPos (id : Z).
+
+Definition obs_step (o : obs_item) : option (list Z) :=
+  match o with
+  | OISensor i => Some [i]
+  | OIColl c => if is_nil (flat_sensors c) then None else Some (flat_sensors c)   (* no sensors: BadUserInput *)
+  | OIPos i => Some [i]
+  end.
+
+Fixpoint format_observers (l : list obs_item) : option (list Z) :=
+  match l with
+  | [] => Some []
+  | o :: r => match obs_step o, format_observers r with
+              | Some a, Some b => Some (a ++ b)
+              | _, _ => None
+              end
+  end.
+
+Definition olist_eqb (a b : option (list Z)) : bool :=
+  match a, b with
+  | None, None => true
+  | Some x, Some y => Nat.eqb (List.length x) (List.length y) && forallb (fun p => fst p =? snd p) (combine x y)
+  | _, _ => false
+  end.
+
 (* ------------------------------------------------------------------------------------------------------------------
    3. dataframe assembly
         src_ids = ["sumup (L)"] if sumup and len(sources) > 1 else labels of the sources
@@ -443,3 +470,6 @@ Definition vres_eqb (a b : vres) : bool :=
   end.
 Definition failing_rcases (cs : list (mobj * nat * vres)) : list Z :=
   failing_from (fun c => vres_eqb (validate_getBH_inputs (fst (fst c)) (snd (fst c))) (snd c)) 0 cs.
+
+Definition failing_ocases (cs : list (list obs_item * option (list Z))) : list Z :=
+  failing_from (fun c => olist_eqb (format_observers (fst c)) (snd c)) 0 cs.
